@@ -6954,6 +6954,10 @@ impl RelationalEngine {
                 })?;
         }
 
+        // The scan above ran without locks: re-read the now locked rows so that pre-images and
+        // index entries reflect what other transactions committed in between.
+        let matching_rows = self.reread_locked_rows(table, &schema, &condition, &matching_rows)?;
+
         // Convert updates to slab format
         let slab_updates: Vec<(String, SlabColumnValue)> = updates
             .iter()
@@ -7015,6 +7019,35 @@ impl RelationalEngine {
         Ok(matching_rows.len())
     }
 
+    /// Re-reads rows that were matched by an unlocked scan after their locks have been taken and
+    /// keeps those that still exist and still satisfy the condition.
+    #[allow(clippy::type_complexity)]
+    fn reread_locked_rows(
+        &self,
+        table: &str,
+        schema: &Schema,
+        condition: &Condition,
+        scanned: &[(SlabRowId, Row, Vec<SlabColumnValue>)],
+    ) -> Result<Vec<(SlabRowId, Row, Vec<SlabColumnValue>)>> {
+        let indices: Vec<usize> = scanned
+            .iter()
+            .filter_map(|(id, _, _)| usize::try_from(id.as_u64()).ok())
+            .collect();
+        let fresh = self
+            .slab()
+            .get_rows_by_indices(table, &indices)
+            .map_err(|e| RelationalError::StorageError(e.to_string()))?;
+        let max_depth = self.config.max_condition_depth;
+        let mut out = Vec::with_capacity(fresh.len());
+        for (row_id, slab_row) in fresh {
+            let row = Self::slab_row_to_engine_row(schema, row_id, slab_row.clone());
+            if condition.evaluate_with_depth(&row, 0, max_depth)? {
+                out.push((row_id, row, slab_row));
+            }
+        }
+        Ok(out)
+    }
+
     /// Delete rows within a transaction.
     ///
     /// # Errors
@@ -7072,6 +7105,9 @@ impl RelationalEngine {
                     row_id: info.row_id,
                 })?;
         }
+
+        // The scan above ran without locks: re-read the now locked rows (see tx_update).
+        let to_delete = self.reread_locked_rows(table, &schema, &condition, &to_delete)?;
 
         for (slab_row_id, row, old_slab_values) in &to_delete {
             // Capture index entries for undo
